@@ -235,9 +235,31 @@ def run_plain(case):
   require(len(again) == len(batches) and all(
       set(x) == set(y) and all(same_array(np.asarray(x[k]), np.asarray(y[k])) for k in x)
       for x, y in zip(batches, again)), 'second_iteration_differs')
+  check_overlapping_passes(view, batches)
   require(raw_digest(raw) == before and
           (case.get('slice') is not None or ds.raw_examples is raw) and
           raw_digest(ds.raw_examples) == raw_digest(eff), 'dataset_mutated')
+
+
+def check_overlapping_passes(view, batches):
+  """Two passes over the same view that are alive at the same time: a pass
+  started first and resumed after a complete second pass, and two passes
+  advanced in lock-step, each yield the same batches as a pass on its own."""
+  def same(xs, ys):
+    return len(xs) == len(ys) and all(
+        set(x) == set(y) and all(same_array(np.asarray(x[f]), np.asarray(y[f])) for f in x)
+        for x, y in zip(xs, ys))
+  it = iter(view)
+  head = [next(it)] if batches else []
+  middle = list(view)
+  tail = list(it)
+  require(same(middle, batches), 'overlapping_passes:inner_pass_differs',
+          f'{len(middle)} vs {len(batches)} batches')
+  require(same(head + tail, batches), 'overlapping_passes:outer_pass_disturbed',
+          f'{len(head + tail)} vs {len(batches)} batches')
+  pairs = list(zip(view, view))
+  require(same([a for a, _ in pairs], batches) and same([b for _, b in pairs], batches),
+          'overlapping_passes:lock_step_passes_differ', f'{len(pairs)} vs {len(batches)} pairs')
 
 
 def run_padded(case):
@@ -267,6 +289,7 @@ def run_padded(case):
   require(len(again) == len(batches) and all(
       set(x) == set(y) and all(same_array(np.asarray(x[f]), np.asarray(y[f])) for f in x)
       for x, y in zip(batches, again)), 'second_iteration_differs')
+  check_overlapping_passes(view, batches)
   require(raw_digest(raw) == before and
           (case.get('slice') is not None or ds.raw_examples is raw) and
           raw_digest(ds.raw_examples) == raw_digest(eff), 'dataset_mutated')
